@@ -28,6 +28,7 @@ static J gen_motion_case(Chooser &ch)
   g::Opt o;
   o.min_features = 1; o.max_features = 4;
   o.operations = true; o.model_ranges = true; o.cross_section = 1; o.global_constants = ch.chance(30); o.water = true;
+  o.depth_surfaces = true; o.depth_surface_interior = 14; // depth-surface points move with the world; enough of them for the triangulation to have choices
   g::GW w = g::gen_world(ch, o);
   J c = J::obj();
   c["world"] = w.root.dump();
@@ -196,6 +197,22 @@ static bool foot_not_global(const J &world, bool sph, double qx, double qy)
   return false;
 }
 
+// three consecutive trench coordinates exactly on one line: the orientation tests for the Bezier control points compare cross
+// products that are zero up to rounding, so the curve's shape follows the rounding of the absolute coordinates (root cause listed
+// under C06, "collinear intermediate coordinate")
+static bool has_collinear_trench(const J &root)
+{
+  for (const auto &f : root.at("features").a)
+    if (f.has("segments"))
+      for (size_t i = 0; i + 2 < f.at("coordinates").size(); ++i)
+        {
+          const J &p0 = f.at("coordinates")[i], &p1 = f.at("coordinates")[i + 1], &p2 = f.at("coordinates")[i + 2];
+          const double ux = p1[0].num() - p0[0].num(), uy = p1[1].num() - p0[1].num(), vx = p2[0].num() - p1[0].num(), vy = p2[1].num() - p1[1].num();
+          if (std::fabs(ux * vy - uy * vx) <= 1e-12 * (std::fabs(ux * vy) + std::fabs(uy * vx))) return true;
+        }
+  return false;
+}
+
 static const PropList &cmp_list()
 {
   static const PropList l = {{{1, 0, 0}}, {{2, 0, 0}}, {{2, 1, 0}}, {{2, 2, 0}}, {{2, 3, 0}}, {{2, 4, 0}}, {{2, 5, 0}}, {{3, 0, 2}}, {{3, 1, 1}}};
@@ -282,7 +299,7 @@ static Result check_motion(const J &c)
               if (!same(a, a2)) ambiguous = true;
             }
           if (ambiguous) { r.classes.push_back("boundary-ambiguous(skipped)"); continue; }
-          return Result::fail(fr.sph ? "sph-2d-interface" : "cart-2d-interface", "the 2D interface (cross section moved with the world) answers differently after the motion at (x,z)=(" + fmt(p2d[0]) + "," + fmt(p2d[1]) + ") depth " + fmt(depth) + ": tag '" + a.tag + "' vs '" + b.tag + "'" + (a.v.empty() || b.v.empty() ? std::string() : ", T " + fmt(a.v[0]) + " vs " + fmt(b.v[0])));
+          return Result::fail(has_collinear_trench(root) ? "collinear-trench-coordinates" : (fr.sph ? "sph-2d-interface" : "cart-2d-interface"), "the 2D interface (cross section moved with the world) answers differently after the motion at (x,z)=(" + fmt(p2d[0]) + "," + fmt(p2d[1]) + ") depth " + fmt(depth) + ": tag '" + a.tag + "' vs '" + b.tag + "'" + (a.v.empty() || b.v.empty() ? std::string() : ", T " + fmt(a.v[0]) + " vs " + fmt(b.v[0])));
         }
     }
   for (const auto &q : c.at("queries").a)
@@ -312,17 +329,7 @@ static Result check_motion(const J &c)
       for (auto &f : root.at("features").a) { const std::string tg = f.has("tag") ? f.at("tag").str() : f.at("model").str(); if (tg == a.tag || tg == b.tag) owner = f.at("model").str(); }
       std::string sig = fr.sph ? "sph-longitude-offset" : "cart-rigid-motion";
       if (owner == "plume" && fr.sph) sig = "plume-longitude-alias";
-      // three consecutive trench coordinates exactly on one line: the orientation tests for the Bezier control points compare cross
-      // products that are zero up to rounding, so the curve's shape follows the rounding of the absolute coordinates (root cause
-      // listed under C06, "collinear intermediate coordinate")
-      for (const auto &f : root.at("features").a)
-        if (f.has("segments"))
-          for (size_t i = 0; i + 2 < f.at("coordinates").size(); ++i)
-            {
-              const J &p0 = f.at("coordinates")[i], &p1 = f.at("coordinates")[i + 1], &p2 = f.at("coordinates")[i + 2];
-              const double ux = p1[0].num() - p0[0].num(), uy = p1[1].num() - p0[1].num(), vx = p2[0].num() - p1[0].num(), vy = p2[1].num() - p1[1].num();
-              if (std::fabs(ux * vy - uy * vx) <= 1e-12 * (std::fabs(ux * vy) + std::fabs(uy * vx))) sig = "collinear-trench-coordinates";
-            }
+      if (has_collinear_trench(root)) sig = "collinear-trench-coordinates";
       if (foot_not_global(root, fr.sph, q.at("nat")[0].num(), q.at("nat")[1].num()) || foot_not_global(moved, fr.sph, q2.at("nat")[0].num(), q2.at("nat")[1].num()))
         sig = "curved-trench-foot-is-a-local-minimum";
       return Result::fail(sig, std::string(fr.sph ? "longitude offset " + fmt(m.dlon) : "rotation " + fmt(m.angle_deg) + " deg + translation (" + fmt(m.tx) + "," + fmt(m.ty) + ")") + " changes the answer (" + what + ") at " + q.dump() + " -> " + q2.dump());
@@ -334,7 +341,7 @@ int main(int argc, char **argv)
 {
   return run_main("C08", argc, argv,
   {
-    {"rigid_motion", "worlds with 1..4 features of every type (ridges, dip points, curved trenches, cross section, water content) x a rigid motion (cartesian: rotation about the vertical by any angle incl. 90/180/270 + translation up to 1e7 m; spherical: common longitude offset, 75% of them carrying a feature onto +-180 or a full turn, longitudes kept within [-360,360]) x 3..12 feature-aimed queries; temperature, compositions, grains and tag string compared (1e-6 / 1e-7 relative), boundary-robust. Non-trivial: point inside a feature and motion not the identity", 80, gen_motion_case, check_motion, 100, true, true},
+    {"rigid_motion", "worlds with 1..4 features of every type (ridges, dip points, curved trenches, cross section, water content, point-wise depth surfaces with up to 14 interior points) x a rigid motion (cartesian: rotation about the vertical by any angle incl. 90/180/270 + translation up to 1e7 m; spherical: common longitude offset, 75% of them carrying a feature onto +-180 or a full turn, longitudes kept within [-360,360]) x 3..12 feature-aimed queries; temperature, compositions, grains and tag string compared (1e-6 / 1e-7 relative), boundary-robust. Non-trivial: point inside a feature and motion not the identity", 80, gen_motion_case, check_motion, 100, true, true},
     {"ridge_longitude_alias", "spherical worlds whose temperature depends on the closest ridge point (oceanic plate with plate / half space model, 40% with a mass conserving slab) with an oblique 2..4-point ridge and one spreading velocity per ridge point x a longitude offset that carries plate and ridge onto +-180, to +-330, a full turn, or anywhere in [-300,300] x 4..10 queries inside plate / slab; same comparison as rigid_motion. Non-trivial: point inside a feature and offset not zero", 40, gen_ridge_alias_case, check_motion, 100, true, true},
   });
 }
